@@ -248,6 +248,49 @@ theorem runFollowAllT_calls_prefix (O : Oracles) (qy : Query) (k : Nat) (lines :
   · exact List.prefix_refl _
   · exact runFollowT_calls_prefix O qy k lines {}
 
+/-- a run over a prefix of the lines that failed is the run over all lines: the loop ended at the failing line -/
+theorem runFollowT_take_failed (O : Oracles) (qy : Query) (k : Nat) (lines : List Line) (s : TraceState)
+    (h0 : hasFailed s.ls.out = false) (h : hasFailed (runFollowT O qy none (lines.take k) s).ls.out = true) :
+    runFollowT O qy none (lines.take k) s = runFollowT O qy none lines s := by
+  induction lines generalizing k s with
+  | nil => simp
+  | cons l rest ih =>
+    cases k with
+    | zero => simp only [List.take_zero, runFollowT] at h; rw [h0] at h; cases h
+    | succ k =>
+      rw [List.take_succ_cons] at h ⊢
+      rw [runFollowT] at h ⊢
+      rw [runFollowT]
+      have hn : ((none : Option Nat) == some s.ls.consumed) = false := rfl
+      simp only [hn, Bool.false_eq_true, if_false] at h ⊢
+      cases hx : executeLine O qy [] true s.ls.es l with
+      | ok p =>
+        obtain ⟨es, res, lim⟩ := p
+        rw [hx] at h
+        cases res with
+        | none =>
+          simp only at h ⊢
+          exact ih k _ (by simpa [hasFailed] using h0) h
+        | some r =>
+          cases lim with
+          | true => rfl
+          | false =>
+            simp only [Bool.false_eq_true, if_false] at h ⊢
+            exact ih k _ (by simpa [hasFailed] using h0) h
+      | error e => rfl
+      | panic e => rfl
+      | oracleMissing e => rfl
+
+theorem runFollowAllT_take_failed (O : Oracles) (qy : Query) (k : Nat) (lines : List Line)
+    (h : hasFailed (runFollowAllT O qy none (lines.take k)).out = true) :
+    runFollowAllT O qy none (lines.take k) = runFollowAllT O qy none lines := by
+  unfold runFollowAllT at h ⊢
+  split
+  · rfl
+  · rename_i hl
+    simp only [hl, Bool.false_eq_true, if_false] at h
+    rw [runFollowT_take_failed O qy k lines {} rfl h]
+
 /-! ### noise lines -/
 
 /-- **lines that yield no row are invisible to the traced follow run**: the same print calls, the same way of ending -/
